@@ -380,6 +380,7 @@ func init() {
 		// ---- fmt / errors / reflect ----
 		"fmt.Errorf":     modelErrorf,
 		"fmt.Sprintf":    modelSprintf,
+		"fmt.Fprintf":    modelFprintf,
 		"errors.Is":      modelErrorsIs,
 		"errors.As":      modelErrorsAs,
 		"reflect.TypeOf": func(e *Exec, c *frame, fn *ssa.Function, a []Value) Value {
@@ -515,6 +516,16 @@ func (m *Machine) globalModel(e *Exec, g *ssa.Global) (Value, bool) {
 		return e.newErrorString("bytes.Buffer: reader returned negative count from Read"), true
 	case "bytes.errUnreadByte":
 		return e.newErrorString("bytes.Buffer: UnreadByte: previous operation was not a successful read"), true
+	case "os.ErrDeadlineExceeded", "internal/poll.ErrDeadlineExceeded":
+		// one shared *poll.DeadlineExceededError (Error, Timeout, Temporary)
+		if e.deadlineErr == nil {
+			t := e.M.namedType("internal/poll", "DeadlineExceededError")
+			p := new(Value)
+			*p = Struct{}
+			v := Iface{T: types.NewPointer(t), V: p}
+			e.deadlineErr = &v
+		}
+		return *e.deadlineErr, true
 	case "strconv.ErrRange":
 		return e.newErrorString("value out of range"), true
 	case "strconv.ErrSyntax":
@@ -833,6 +844,26 @@ func modelSprintf(e *Exec, c *frame, fn *ssa.Function, a []Value) Value {
 	}
 	s, _ := e.render(format, e.variadic(a[1]))
 	return s
+}
+
+// Fprintf / Fprint-family: render like Sprintf, then hand the bytes to the
+// writer's own Write method (whatever that writer is: the transport, a frame).
+func modelFprintf(e *Exec, c *frame, fn *ssa.Function, a []Value) Value {
+	w := a[0].(Iface)
+	if w.T == nil {
+		e.goPanic("invalid memory address or nil pointer dereference")
+	}
+	format, ok := e.concreteString(a[1].(Slice))
+	if !ok {
+		e.unsupported("fmt.Fprintf with symbolic format")
+	}
+	s, _ := e.render(format, e.variadic(a[2]))
+	m := e.methodByName(w.T, "Write")
+	if m == nil {
+		e.unsupported("fmt.Fprintf: %v has no Write method", w.T)
+	}
+	bytes := e.copyBytes(s, true)
+	return e.CallValue(m, w.V, bytes)
 }
 
 func modelErrorf(e *Exec, c *frame, fn *ssa.Function, a []Value) Value {
